@@ -52,6 +52,19 @@ def disconnected_cases(tier):
     return cases
 
 
+def twice_cases(tier):
+    """two subscriptions made from clones of one finalize observable: each has its own callback"""
+    cases = []
+    n = 0
+    L = 4 if tier == "quick" else 6
+    for k in range(L + 1):
+        for h in itertools.product(["(n 1)", "c", "(e 7)", "(u 0)", "(u 1)"], repeat=k):
+            n += 1
+            form = "local" if n % 2 else "threads"
+            cases.append(("w%d" % n, "(case w%d finalize %s twice plain (stims %s))" % (n, form, " ".join(h)), {"kind": "twice", "shape": "plain", "len": k}))
+    return cases
+
+
 def race_cases(tier):
     rounds = 300 if tier == "quick" else 5000
     return [("r%d" % i, "(case r%d finalize_race %d %d)" % (i, rounds, i), {"kind": "race", "items": i}) for i in range(4)]
@@ -62,7 +75,7 @@ def run(tier, seed, replay=None):
     proof_stage(rep, "C15")
     if not build_stage(rep):
         return rep.finish()
-    cases = load_replay_case(replay) if replay else hot_cases(tier) + cold_cases(tier) + disconnected_cases(tier) + race_cases(tier) + ileave2.cases(tier, Rng(seed), kinds=("fin",))
+    cases = load_replay_case(replay) if replay else hot_cases(tier) + cold_cases(tier) + disconnected_cases(tier) + twice_cases(tier) + race_cases(tier) + ileave2.cases(tier, Rng(seed), kinds=("fin",))
     correspond(rep, "C15", cases, "C15_exactly_once_right_after / C15_at_most_once / C15_once_when_unsubscribed / C15_race_once")
     c = rep.coverage
     hist = {}
@@ -76,7 +89,7 @@ def run(tier, seed, replay=None):
                  "create() source during subscribe, with and without a later unsubscribe; the callback logs into the subscriber's own log with a "
                  "marker after each stimulus, so its position is observed; while a subscription is being unsubscribed the callback also pushes an item "
                  "into the subject, so an input still connected at that moment shows; inputs that never hold the observer (never(), a subject "
-                 "terminated beforehand) with every sequence of <= 3 unsubscriptions / guard drops / late events; judged by the extracted predicate fin_ok (callback in the segment of "
+                 "terminated beforehand; two subscriptions made from clones of one finalize observable, each owing its own callback) with every sequence of <= 3 unsubscriptions / guard drops / late events; judged by the extracted predicate fin_ok (callback in the segment of "
                  "the first trigger, last there, nowhere else) and compared with the model; plus real-thread rounds racing a terminating thread "
                  "against an unsubscribing thread on finalize_threads (supporting evidence for the atomic-take assumption of C15_race_once)"
                  % ((5, 4) if tier == "quick" else (7, 6)))
